@@ -80,6 +80,8 @@ type Exec struct {
 	inlineDepth int
 	caseIdx int // 0: no case split; k>0: k-th case; -1: exhaustiveness obligation only
 	ghostCells map[string]*Cell // contract-visible ghost variables (e.g. `iter` of a range loop without key)
+	rootFields map[types.Object]map[string]bool
+	keepRootFields bool
 }
 
 func (ex *Exec) note(f string, a ...interface{}) {
@@ -1219,8 +1221,23 @@ func (ex *Exec) execSwitch(st *State, n *ast.SwitchStmt) []*State {
 // assignedRoots collects the root variables assigned (or possibly modified) in a statement list.
 func (ex *Exec) assignedRoots(n ast.Node) map[types.Object]bool {
 	roots := map[types.Object]bool{}
-	var rootOf func(e ast.Expr) types.Object
-	rootOf = func(e ast.Expr) types.Object {
+	if ex.rootFields == nil || !ex.keepRootFields {
+		ex.rootFields = map[types.Object]map[string]bool{}
+	}
+	var lastField string
+	var rootOf0 func(e ast.Expr) types.Object
+	rootOf := func(e ast.Expr) types.Object {
+		lastField = ""
+		o := rootOf0(e)
+		if o != nil {
+			if ex.rootFields[o] == nil {
+				ex.rootFields[o] = map[string]bool{}
+			}
+			ex.rootFields[o][lastField] = true
+		}
+		return o
+	}
+	rootOf0 = func(e ast.Expr) types.Object {
 		switch x := e.(type) {
 		case *ast.Ident:
 			if o := ex.info.Uses[x]; o != nil {
@@ -1228,17 +1245,24 @@ func (ex *Exec) assignedRoots(n ast.Node) map[types.Object]bool {
 			}
 			return ex.info.Defs[x]
 		case *ast.SelectorExpr:
-			return rootOf(x.X)
+			if sel, ok := ex.info.Selections[x]; ok && sel.Kind() == types.FieldVal {
+				o := rootOf0(x.X)
+				if _, isRoot := x.X.(*ast.Ident); isRoot {
+					lastField = x.Sel.Name
+				}
+				return o
+			}
+			return rootOf0(x.X)
 		case *ast.IndexExpr:
-			return rootOf(x.X)
+			return rootOf0(x.X)
 		case *ast.StarExpr:
-			return rootOf(x.X)
+			return rootOf0(x.X)
 		case *ast.ParenExpr:
-			return rootOf(x.X)
+			return rootOf0(x.X)
 		case *ast.SliceExpr:
-			return rootOf(x.X)
+			return rootOf0(x.X)
 		case *ast.UnaryExpr:
-			return rootOf(x.X)
+			return rootOf0(x.X)
 		}
 		return nil
 	}
@@ -1266,6 +1290,22 @@ func (ex *Exec) assignedRoots(n ast.Node) map[types.Object]bool {
 				}
 			}
 		case *ast.CallExpr:
+			if id, ok := s.Fun.(*ast.Ident); ok {
+				if b, isB := ex.info.Uses[id].(*types.Builtin); isB {
+					if b.Name() == "copy" && len(s.Args) > 0 {
+						if o := rootOf(s.Args[0]); o != nil {
+							roots[o] = true
+						}
+					}
+					return true
+				}
+			}
+			if tv, ok := ex.info.Types[s.Fun]; ok && tv.IsType() {
+				return true // conversion
+			}
+			if ex.isLoggingChain(s) {
+				return true
+			}
 			ct, fn, gadget := ex.calleeContract(s)
 			if ct != nil {
 				// only what the callee's modifies clause names
@@ -1507,9 +1547,11 @@ func (ex *Exec) execLoopInv(st *State, spec *LoopSpec, ord int, node ast.Node, c
 	// 2. havoc
 	roots := ex.assignedRoots(body)
 	if post != nil {
+		ex.keepRootFields = true
 		for o := range ex.assignedRoots(post) {
 			roots[o] = true
 		}
+		ex.keepRootFields = false
 	}
 	h := st.clone()
 	var names []string
@@ -1539,7 +1581,7 @@ func (ex *Exec) execLoopInv(st *State, spec *LoopSpec, ord int, node ast.Node, c
 			h.store[c] = ex.freshDims(h, dims, varKind, v.Name())
 			continue
 		}
-		h.store[c] = ex.havocLike(h, old, kindOf(v.Type()), v.Name())
+		h.store[c] = ex.havocFields(h, old, kindOf(v.Type()), v.Name(), ex.rootFields[o])
 	}
 	sort.Strings(names)
 	ex.havocAliases(st, h, roots)
@@ -1646,7 +1688,7 @@ func (ex *Exec) havocLike(st *State, old Val, k *Kind, hint string) Val {
 			}
 			return &SliceV{Elem: x.Elem, Len: x.Len, Vec: vs, IsV: true, Tag: x.Tag}
 		}
-		if x.IsV && x.Elem.K == "slice" {
+		if x.IsV && x.Elem.K == "slice" && (x.Elem.Elem.K == "slice" || x.Elem.Fixed) {
 			panic(unsupported("havoc of nested explicit slice %s needs a shape clause", hint))
 		}
 		nv := ex.freshVal(st, &Kind{K: "slice", Elem: x.Elem}, hint).(*SliceV)
@@ -1821,7 +1863,7 @@ func (ex *Exec) execLoopInvRange(st *State, spec *LoopSpec, ord int, n *ast.Rang
 		if v.Pos() >= n.Body.Pos() && v.Pos() <= n.Body.End() {
 			continue
 		}
-		h.store[c] = ex.havocLike(h, st.store[c], kindOf(v.Type()), v.Name())
+		h.store[c] = ex.havocFields(h, st.store[c], kindOf(v.Type()), v.Name(), ex.rootFields[o])
 	}
 	ex.havocAliases(st, h, roots)
 	ki := Fresh(kname, SInt)
@@ -1952,4 +1994,33 @@ func (ex *Exec) havocAliases(pre, h *State, roots map[types.Object]bool) {
 			h.store[c] = r
 		}
 	}
+}
+
+// havocFields havocs only the named fields of a struct value (or of the struct a pointer refers to) when the
+// loop body provably touches nothing else of it; otherwise the whole value.
+func (ex *Exec) havocFields(st *State, old Val, k *Kind, hint string, fields map[string]bool) Val {
+	if len(fields) == 0 || fields[""] {
+		return ex.havocLike(st, old, k, hint)
+	}
+	switch x := old.(type) {
+	case *StructV:
+		nf := map[string]Val{}
+		for name, fv := range x.F {
+			nf[name] = fv
+		}
+		for _, fd := range x.K.Fields {
+			if fields[fd.Name] {
+				nf[fd.Name] = ex.havocLike(st, x.F[fd.Name], fd.K, hint+"."+fd.Name)
+			}
+		}
+		return &StructV{K: x.K, F: nf}
+	case *RefV:
+		if !x.Nil && len(x.Path) == 0 {
+			if sv, ok := st.store[x.Cell].(*StructV); ok {
+				st.store[x.Cell] = ex.havocFields(st, sv, sv.K, hint, fields)
+				return x
+			}
+		}
+	}
+	return ex.havocLike(st, old, k, hint)
 }
